@@ -326,3 +326,74 @@ for _m in ('tt1', 'tt2'):
                  ensures=[('O-ctl.range', 'result.start == ctl_tlv_start(data) and '
                                           'result.stop == ctl_tlv_start(data) + rsvd_tlv_size(data)')],
                  raises={})
+
+# ---------------------------------------------------------------- Type 1 (write path; the reserved range either does
+# not touch the message area or covers its tail - the static memory layout: lock/OTP octets 104..119 of a 120 octet
+# tag; dynamic memory tags always have 104..127 inside the area and stay bounded)
+T1M = 'nfc.tag.tt1:'
+T1W = 'nfc.tag.tt1.Type1Tag.NDEF._write_ndef_data'
+for prop in ('C01', 'C03'):
+    ens = {'C01': [('O-write.view', 'view_is(t12_view(%s.mem, %s.off, %s.end, %s.a, %s.b), old(bytes(data)))'
+                                    % ((IMG,) * 5)),
+                   ('O-write.flushed', '%s.mem == %s.img' % (IMG, IMG))],
+           'C03': [('O-frame.before', '%s.mem[0:%s.off + 1] == %s.mem0[0:%s.off + 1]' % ((IMG,) * 4)),
+                   ('O-frame.behind', '%s.mem[%s.end:] == %s.mem0[%s.end:]' % ((IMG,) * 4))]}[prop]
+    contract(T1M + 'Type1Tag.NDEF._write_ndef_data', prop,
+             dict(self=Obj(T1M + 'Type1Tag.NDEF', _partial=False, _data=None, _capacity=Int(0, None), _readable=True,
+                           _writeable=True, _tag=None, _ndef_tlv_offset=Int(12, 2048), _skip_bytes=None,
+                           _tag_memory=Obj('models.tag_models:TagImage', _partial=False, img=Bytes(120, None),
+                                           mem=Ref('self._tag_memory.img'), mem0=Ref('self._tag_memory.img'),
+                                           off=Ref('self._ndef_tlv_offset'), end=Int(12, 2048), a=Int(0, 0x800),
+                                           b=Int(0, 0x800), unit=OneOf(1, 8), goal=Ref('data'), syncs=0,
+                                           check_cut=False)),
+                  data=Bytes(0, None, mutable=True)),
+             name='%s/tt1._write_ndef_data' % prop, setup=t2_setup,
+             requires=['(%s.img[10] + 1) * 8 <= len(%s.img)' % (IMG, IMG), 'len(%s.img) %% 8 == 0' % IMG,
+                       # effective end of the message area: the data area end, or the start of a reserved range
+                       # that covers the tail of the data area
+                       '%s.end == ((%s.img[10] + 1) * 8 if (%s.a >= %s.b or %s.b <= %s.off or '
+                       '%s.a >= (%s.img[10] + 1) * 8) else %s.a)' % ((IMG,) * 9),
+                       '%s.a >= %s.b or %s.b <= %s.off or %s.a >= (%s.img[10] + 1) * 8 or '
+                       '(%s.b >= (%s.img[10] + 1) * 8 and %s.a > %s.off + 1)' % ((IMG,) * 10),
+                       't12_view(%s.img, %s.off, %s.end, %s.a, %s.b) != NO_NDEF' % ((IMG,) * 5),
+                       'len(data) + (2 if len(data) < 255 else 4) <= %s.end - %s.off' % (IMG, IMG)],
+             ensures=ens, raises={},
+             loops={(T1W, 'For', 0): LoopSpec(
+                 entry={'_s': 'offset', '_c': 'bytes(self._tag_memory.img)'},
+                 invariant=['offset == _s', '%s.img == _c[0:_s] + bytes(data[0:_k]) + _c[_s + _k:]' % IMG,
+                            '%s.mem == _c' % IMG],
+                 havoc={'offset': Int(0, None), '%s.img' % IMG: '_c[0:_s] + bytes(data[0:_k]) + _c[_s + _k:]'}),
+                    (T1W, 'While', 0): LoopSpec(entry={'_o': 'offset'}, invariant=['offset == _o'],
+                                                 decreases='0x800 - (offset + i)', havoc={'offset': Int(0, None)}),
+                    (T1W, 'While', 1): LoopSpec(entry={'_o': 'offset', '_ci': 'bytes(self._tag_memory.img)'},
+                                                 invariant=['offset >= _o', '%s.img == _ci' % IMG],
+                                                 decreases='tag_memory_size - offset',
+                                                 havoc={'offset': Int(0, None)})},
+             idle_loops=['_write_ndef_data/loop:While0'])
+
+# the real Type 1 memory reader's synchronize() refines TagImage.synchronize(): every state the tag goes through
+# is cache[0:u*j] + old[u*j:] (u = 8 for dynamic memory tags, 1 for static ones), only differing units are written
+RD1 = 'nfc.tag.tt1.Type1TagMemoryReader'
+for _mode, _hr0, _u in (('blocks', 0x12, 8), ('bytes', 0x11, 1)):
+    contract(T1M + 'Type1TagMemoryReader.synchronize', 'C01',
+             dict(self=Obj(T1M + 'Type1TagMemoryReader', _partial=False, _data_from_tag=Bytes(0, None, mutable=True),
+                           _data_in_cache=Bytes(0, None, mutable=True), _header_rom=Const(bytearray([_hr0, 0x4C])),
+                           _tag=Obj('models.tag_models:T1BlockTag', _partial=False, mem=Bytes(120, None), writes=0))),
+             name='C01/tt1.reader.synchronize[%s]' % _mode,
+             requires=['len(self._data_in_cache) == len(self._data_from_tag)', 'len(self._data_from_tag) % 8 == 0',
+                       'len(self._data_from_tag) <= len(self._tag.mem)', 'len(self._data_from_tag) <= 2048',
+                       'self._data_from_tag == self._tag.mem[0:len(self._data_from_tag)]'],
+             ensures=[('O-refine.flushed', 'self._tag.mem == old(bytes(self._data_in_cache) + '
+                                           'self._tag.mem[len(self._data_in_cache):])'),
+                      ('O-refine.ri', 'self._data_from_tag == self._tag.mem[0:len(self._data_from_tag)] and '
+                                      'bytes(self._data_in_cache) == old(bytes(self._data_in_cache))')],
+             raises={},
+             loops={(RD1 + '._write_to_tag', 'For', 0 if _u == 8 else 1): LoopSpec(
+                 entry={'_S': 'self._tag.mem', '_C': 'bytes(self._data_in_cache)'},
+                 invariant=['bytes(self._data_in_cache) == _C', 'len(self._data_from_tag) == len(_C)',
+                            'self._tag.mem == _C[0:%d * _k] + _S[%d * _k:]' % (_u, _u),
+                            'self._data_from_tag == _C[0:%d * _k] + _S[%d * _k:len(_C)]' % (_u, _u),
+                            'len(_C) % 8 == 0 and len(_C) <= len(_S) and stop == len(_C)'],
+                 havoc={'self._tag.mem': '_C[0:%d * _k] + _S[%d * _k:]' % (_u, _u),
+                        'self._data_from_tag': 'bytearray(_C[0:%d * _k] + _S[%d * _k:len(_C)])' % (_u, _u),
+                        'self._tag.writes': Int(0, None)})})
